@@ -25,6 +25,7 @@ typedef struct unit {
     struct unit *fwd;      /* the descriptor was revived as that unit (the migration callback keeps the first argument) */
     int last_mig_tgt, force_tgt; /* pool of the last completed migration (+1, 0 = none); a revived unit asks for it again */
     int ext_join;                /* joined and freed by the external joiner thread, not by the primary ULT */
+    volatile int join_started, cancel_done; /* a late cancellation is posted only before somebody starts joining the unit */
     long arg_seen;
 } unit;
 static unit U[MAXU];
@@ -259,12 +260,15 @@ static void unit_fn(void *arg)
         int op = u->steps[i];
         vs_note("step U%d %s", u->id, OPN_[op]);
         switch (op) {
-            case OP_YIELD:
+            case OP_YIELD: {
+                int cdone = u->cancel_done; /* a cancellation posted before this scheduling point takes effect in it */
                 u->in_run = 0;
                 ABT_OK(ABT_thread_yield());
                 VSA_CHECK(u->in_run == 0, "unit U%d resumed on two streams at once", u->id);
                 u->in_run = 1;
+                VSA_CHECK(!cdone, "U%d runs on after a yield although ABT_thread_cancel on it had returned before the yield", u->id);
                 break;
+            }
             case OP_CHILD: {
                 int c = new_unit(u->id, 1);
                 if (c >= 0) {
@@ -414,17 +418,20 @@ static void unit_fn(void *arg)
                 VSA_CHECK(st0 == 1, "resume_yield_to target U%d had started %d times", t, st0);
                 break;
             }
-            case OP_SUSPEND:
+            case OP_SUSPEND: {
+                int cdone = u->cancel_done;
                 u->want_resume++;
                 vs_log("apiCall suspend U%d", u->id);
                 u->in_run = 0;
                 ABT_OK(ABT_self_suspend());
+                VSA_CHECK(!cdone, "U%d runs on after a suspension although ABT_thread_cancel on it had returned before it suspended", u->id);
                 VSA_CHECK(u->in_run == 0, "unit U%d resumed on two streams at once", u->id);
                 u->in_run = 1;
                 vs_note("apiRet suspend U%d", u->id);
                 VSA_CHECK(u->resumed_cnt == u->want_resume, "U%d runs after suspend %d but was resumed %d times", u->id,
                           u->want_resume, u->resumed_cnt);
                 break;
+            }
             case OP_MIGRATE: {
                 ABT_bool mig = ABT_FALSE;
                 ABT_OK(ABT_thread_is_migratable(self, &mig));
@@ -516,14 +523,32 @@ static void unit_fn(void *arg)
     __sync_fetch_and_sub(&live_workers, 1);
 }
 
+/* a tiny lock between the canceller (an external thread) and whoever starts joining / freeing a top-level unit */
+static volatile int gate;
+static void gate_lock(void)
+{
+    while (__sync_lock_test_and_set(&gate, 1))
+        sched_yield();
+}
+static void gate_unlock(void) { __sync_lock_release(&gate); }
+static void begin_join_top(int id)
+{
+    gate_lock();
+    U[id].join_started = 1;
+    gate_unlock();
+}
+
 /* external joiner: joins and frees the top-level units assigned to it (futex path of the join hand-shake) */
 static int extj[8], nextj;
+static int late_cancels;
 static volatile int extj_done;
 static void *ext_joiner(void *p)
 {
     (void)p;
-    for (int i = 0; i < nextj; i++)
+    for (int i = 0; i < nextj; i++) {
+        begin_join_top(extj[i]);
         join_unit_ex(extj[i], 98, sc_rnd(2));
+    }
     extj_done = 1;
     return NULL;
 }
@@ -541,6 +566,22 @@ static void *resumer(void *p)
                 ABT_OK(ABT_thread_resume(u->th));
                 vs_note("apiRet resume U%d", i);
                 did = 1;
+            }
+        }
+        /* now and then: cancel a top-level ULT that nobody has started to join (at any point of its life) */
+        if (late_cancels > 0 && sc_rnd(40) == 0) {
+            int k = sc_rnd(nunits > 0 ? nunits : 1);
+            unit *u = &U[k];
+            if (k < nunits && u->parent < 0 && u->kind == AK_ULT && u->life == 0 && !u->cancel_me) {
+                gate_lock();
+                if (!u->join_started && u->th != ABT_THREAD_NULL) {
+                    u->cancel_me = 1;
+                    late_cancels--;
+                    vs_log("apiCall cancel U%d", k);
+                    ABT_OK(ABT_thread_cancel(u->th));
+                    u->cancel_done = 1;
+                }
+                gate_unlock();
             }
         }
         if (!did)
@@ -670,6 +711,7 @@ int main(int argc, char **argv)
                 extj[nextj++] = tops[i];
             }
         }
+    late_cancels = sc_rnd(3) == 0 ? 1 : 0;
     pthread_create(&jt, NULL, ext_joiner, NULL);
     /* join the top-level units; some get a second life (revive); with an early stream join some are left for later */
     int later[16], nl = 0;
@@ -680,6 +722,7 @@ int main(int argc, char **argv)
             later[nl++] = tops[i];
             continue;
         }
+        begin_join_top(tops[i]);
         if (sc_rnd(3) == 0) {
             join_unit_ex(tops[i], 99, 2);
             int r = revive_unit(tops[i]);
@@ -693,8 +736,10 @@ int main(int argc, char **argv)
         }
     }
     if (!topo) {
-        for (int i = 0; i < nl; i++)
+        for (int i = 0; i < nl; i++) {
+            begin_join_top(later[i]);
             join_unit(later[i], 99);
+        }
         nl = 0;
         /* unnamed descendants may still be running: wait for them, then stop the streams */
         while (live_workers > 0)
@@ -712,8 +757,10 @@ int main(int argc, char **argv)
                 VSA_CHECK(U[i].started == 1 && (U[i].finished == 1 || U[i].exited == 1),
                           "all streams serving the shared pool are joined but its U%d has started=%d finished=%d", i, U[i].started,
                           U[i].finished);
-    for (int i = 0; i < nl; i++)
+    for (int i = 0; i < nl; i++) {
+        begin_join_top(later[i]);
         join_unit(later[i], 99);
+    }
     while (live_workers > 0 || !extj_done)
         ABT_OK(ABT_thread_yield());
     pthread_join(jt, NULL);
